@@ -788,6 +788,15 @@ func (ev *Evaluator) binop(op token.Token, x, y Val, pos token.Pos) (Val, error)
 			return nil, &Undecided{pos, "nil arithmetic"}
 		}
 		if isCmp {
+			// operands of different constant kinds (an argument of the wrong type handed in by a rule): undecided, not a panic
+			kx, ky := cx.V.Kind(), cy.V.Kind()
+			num := func(k constant.Kind) bool { return k == constant.Int || k == constant.Float }
+			if kx != ky && !(num(kx) && num(ky)) {
+				return nil, &Undecided{pos, fmt.Sprintf("comparison of constants of different kinds: %v %s %v", cx, op, cy)}
+			}
+			if (kx == constant.Bool || kx == constant.String && false) && op != token.EQL && op != token.NEQ {
+				return nil, &Undecided{pos, "ordering comparison of booleans"}
+			}
 			return Const{constant.MakeBool(constant.Compare(cx.V, op, cy.V))}, nil
 		}
 		if op == token.SHL || op == token.SHR {
